@@ -236,7 +236,7 @@ def free_run(ctx, thorough):
                                            "skipped": res.get("skipped", [])}
     if res.get("skipped"):
         raise vf.MachineryError("free-running dedup stress could not run: %s" % res["skipped"][:3])
-    if res["cases"] < rounds:
+    if res["cases"] < rounds and not res.get("violations"):
         raise vf.MachineryError("free-running dedup stress ran %d of %d rounds" % (res["cases"], rounds))
 
 
@@ -279,5 +279,5 @@ def run_core(ctx):
     ]
     model_check(ctx, thorough)
     waitgroup_replay(ctx, thorough)
-    dedup_replay(ctx, thorough)
     free_run(ctx, thorough)
+    dedup_replay(ctx, thorough)
